@@ -45,6 +45,10 @@ TOP_CONTEXTS = ['expr', 'assign', 'if', 'try', 'with', 'compr', 'decoyarg', 'for
 
 def call_text(callee, s, n, names, va, vk, k):
     parts = ['S'] * n
+    if s.get('arg') == 'popK':
+        parts.insert(0, "%s.pop('t', None)" % vk)       # evaluated (and walked) before **kwargs is expanded (resolved)
+    elif s.get('arg') == 'handK':
+        parts.insert(0, 'H(%s)' % vk)
     if s['sa'] in ('own', 'two'):
         parts.append('*' + va)
     if s['sa'] in ('other', 'two'):
@@ -322,7 +326,7 @@ def shapes(names, maxpos, kwmax):
 def program_event(tid, prog, o, ws, choice, kwmax=2, variants=(1, 2)):
     import sigtools
     from sigtools import signatures
-    taintfree = all(s['k'] != 'taint' for s in prog)
+    taintfree = all(s['k'] != 'taint' and s.get('arg', '-') == '-' for s in prog)
     fns = absig.FnTable()
     fnames = []
     try:
@@ -396,7 +400,8 @@ def choose(prog, rnd, ncallee, same_callee):
         if s['k'] == 'fwd':
             w = 1 if same_callee else 1 + (i % ncallee)
             zname = CALLEE_NAMES[w - 1][2]
-            out.append({'w': w, 'n': rnd.choice([0, 0, 1]), 'names': rnd.choice([[], [], [zname]])})
+            n = 0 if s.get('arg', '-') != '-' else rnd.choice([0, 0, 1])       # the argument expression already is one written positional
+            out.append({'w': w, 'n': n, 'names': rnd.choice([[], [], [zname]])})
         elif s['k'] == 'taint':
             out.append({'tkey': CALLEE_NAMES[0][3]})
         else:
